@@ -71,6 +71,7 @@ M = [
  ("c20-destroy-one-map", "C20", "caught", "lib.rs", "        buffers.remove(&id);\n", "        buffers.get_mut(&id).map(|b| b.len());\n"),
  ("c20-search-no-clear", "C20", "caught", "lib.rs", "        buffer.clear();\n        for result", "        for result"),
  ("c20-set-limit-truncates", "C20", "caught", "lib.rs", "        store.limit = limit;\n", "        store.limit = limit;\n        buffer.truncate(limit);\n"),
+ ("c01-threshold-underflows-text-score", "C01", "caught", "matching/word.rs", "const DAMLEV_THRESHOLD:  f64 = 0.21;", "const DAMLEV_THRESHOLD:  f64 = 0.26;"),
  # ---- property-PRESERVING edits: must stay quiet
  ("ok-threshold-change", "C10", "quiet", "matching/word.rs", "const DAMLEV_THRESHOLD:  f64 = 0.21;", "const DAMLEV_THRESHOLD:  f64 = 0.26;"),
  ("ok-threshold-change-c06", "C06", "quiet", "matching/word.rs", "const DAMLEV_THRESHOLD:  f64 = 0.21;", "const DAMLEV_THRESHOLD:  f64 = 0.26;"),
